@@ -40,9 +40,10 @@ Clauses ==
          [] Tr.rel = "noexact" -> R!NoExact(OA, OB)
          [] Tr.rel = "or" -> R!Or(OA, OB)
          [] Tr.rel = "inverse" -> R!InverseRel(OA, OB, OC)
+         [] Tr.rel = "delivery" -> R!DeliveryClauses(Tr.b.read1, Tr.b.read2) \cup R!Same(Tr.prop, Tr.how, OA, OB)
          [] OTHER -> {"MACHINERY.rel"}
 Init == tid \in 1..Len(Traces)
 Next == UNCHANGED tid
 Spec == Init /\ [][Next]_tid
-Report == PrintT(<<"VERDICT", Tr.id, Clauses, [ties |-> IF Tr.rel \in {"same", "inverse"} THEN Cardinality(R!A!TieGroups) ELSE 0]>>)
+Report == PrintT(<<"VERDICT", Tr.id, Clauses, [rel |-> Tr.rel]>>)
 =============================================================================
